@@ -56,6 +56,7 @@ func scenC02(run *vlab.Run, sx, tmp string) {
 	cmds := [][]string{{"arp"}, {"icmp"}, {"tcp", "-p", "80"}, {"tcp", "syn", "-p", "80"}, {"tcp", "fin", "-p", "80"}, {"tcp", "--flags", "ack", "-p", "80"}, {"udp", "-p", "53"}, {"socks", "-p", "1080"}, {"docker", "-p", "2375"}, {"elastic", "-p", "9200"}}
 	n := 0
 	emptyCache := writeFile(tmp, "arp.cache", "")
+	pairs := writeFile(tmp, "pairs.jsonl", "{\"ip\":\"10.9.0.77\",\"port\":80}\n{\"ip\":\"127.0.0.9\",\"port\":81}\n")
 	for ci, cmd := range cmds {
 		for ti, target := range bad {
 			n++
@@ -72,6 +73,11 @@ func scenC02(run *vlab.Run, sx, tmp string) {
 				}
 			} else {
 				args = append(args, "-t", "200ms")
+			}
+			// the bad target next to a perfectly good target file: still refused, the file is not scanned instead
+			withFile := cmd[0] != "arp" && (ci+ti)%4 == 1 && target != ""
+			if withFile {
+				args = append(args, "-f", pairs)
 			}
 			if target != "" {
 				args = append(args, "--", target)
@@ -100,6 +106,9 @@ func scenC02(run *vlab.Run, sx, tmp string) {
 				run.Violation("non-ipv4-target-accepted:"+key, fmt.Sprintf("target %q is not an IPv4 address or CIDR but sx exited with status 0: sx %s (stdout %q)", target, strings.Join(args, " "), tailStr(strings.Join(res.Stdout, ""), 200)), args)
 			default:
 				run.Count("refusals_ok", 1)
+				if withFile {
+					run.Count("refusals_with_target_file", 1)
+				}
 				if strings.Contains(target, ":") {
 					run.Count("ipv6_forms_refused", 1)
 				}
